@@ -50,7 +50,7 @@
 #define SK_D(k) (365 * (k) + ((k) + 3) / 4 - ((k) + 99) / 100 + ((k) + 399) / 400)
 #define I_DOMAIN(e) (-7900 <= (e) && (e) <= 12000)
 
-#define VALID_YMD(y, m, d) (1 <= (m) && (m) <= 12 && 1 <= (d) && (d) <= DIM(LEAP(y), m))
+#define VALID_YMD(y, m, d) (1 <= (m) && (m) <= 12 && 1 <= (d) && (d) <= DIM(LEAP((Z)(y)), m))
 #define VALID_HMS(hh, mm, ss) (0 <= (hh) && (hh) < 24 && 0 <= (mm) && (mm) < 60 && 0 <= (ss) && (ss) < 60)
 #define VALID_F(f) (VALID_YMD((f).y, (f).m, (f).d) && VALID_HMS((f).hh, (f).mm, (f).ss))
 
